@@ -333,3 +333,9 @@ def r11(rr, repo):
     from .c02 import r5 as c02r5, r6 as c02r6
     c02r5(rr, repo)
     c02r6(rr, repo)
+
+
+@rule('C03.R12', 'no frame is refused or dropped by the publishing driver itself: only ids below the next acceptable one are refused, and send() reports success only after the frame went out or was overtaken (shares C04.R9)')
+def r12(rr, repo):
+    from .c04 import r9 as c04r9
+    c04r9(rr, repo)
